@@ -15,8 +15,9 @@ SeqsUpTo(V, n) == IF n = 0 THEN {<<>>}
 PathTexts(V, n) == {Join(ab, s) : ab \in BOOLEAN, s \in SeqsUpTo(V, n)}
 
 sS == <<115>>  tT == <<116>>  hH == <<104>>  gG == <<103>>  qQ == <<113>>  yY == <<121>>  fF == <<102>>
-BaseVocab == {<<97>>, DOT, DOTDOT, <<>>}
-RefVocab  == {<<97>>, DOT, DOTDOT, <<>>, <<99, 58, 100>>}
+\* (<<97, 46, 46>> is "a..": an ordinary segment that merely ends in two dots)
+BaseVocab == {<<97>>, DOT, DOTDOT, <<>>, <<97, 46, 46>>}
+RefVocab  == {<<97>>, DOT, DOTDOT, <<>>, <<99, 58, 100>>, <<97, 46, 46>>}
 
 Good(ty, P) == LET w == Recompose(P) IN InLang(ty, w) /\ Parts(w) = P
 
@@ -43,7 +44,9 @@ Examples == b = NULL /\ b' = Rfc54Base /\ r' = NULL
 RECURSIVE RepeatSeg(_, _)
 RepeatSeg(s, n) == IF n = 0 THEN <<>> ELSE s \o RepeatSeg(s, n - 1)
 Tail520 == RepeatSeg(<<47, 97, 98, 99, 100, 101, 102, 103, 104, 105>>, 52)            \* "/abcdefghi" x 52 = 520 bytes
-ExtraPairs == {<<<<115, 58, 47, 112>>, <<116, 58, 99, 58, 100>> \o Tail520>>,                       \* s:/p   t:c:d/...
+ExtraPairs == {<<<<115, 58, 47, 112>>, <<116, 58, 46>> \o Tail520>>,                                  \* s:/p   t:./abcdefghi/... (dot segment FIRST, no "/." later)
+               <<<<115, 58, 47, 112>>, <<116, 58, 46, 46>> \o Tail520>>,                              \* s:/p   t:../abcdefghi/...
+               <<<<115, 58, 47, 112>>, <<116, 58, 99, 58, 100>> \o Tail520>>,                       \* s:/p   t:c:d/...
                <<<<115, 58, 47, 112>>, <<47, 120, 47, 46, 46, 47, 47, 101>> \o Tail520>>,           \* s:/p   /x/..//e/...
                <<<<115, 58, 47, 47, 104, 47, 112>>, <<47, 120, 47, 46, 46, 47, 47, 101>> \o Tail520>>,
                <<<<115, 58, 47, 47, 104, 47, 112>>, <<97, 47, 46, 46>> \o Tail520 \o <<47, 46>>>>,  \* a/../...long.../.
